@@ -95,10 +95,14 @@ Proof.
 Qed.
 
 (* the whole pipeline before the confidence stage, on one row *)
+Definition G6 (r : row) : row :=
+  validate M_MCS true false None (mcs_impute OR (mcs_find OR
+     (validate M_RB false true None (rb_row (validate M_INPUT true false None r))))).
 Definition F (r : row) : row :=
-  validate M_MCS true true (Some FINAL_MSG)
-   (rb_row (post_process OR (validate M_MCS true false None (mcs_impute OR (mcs_find OR
-     (validate M_RB false true None (rb_row (validate M_INPUT true false None r)))))))).
+  validate M_MCS true true (Some FINAL_MSG) (restore OR (G6 r) (rb_row (post_process OR (G6 r)))).
+
+Lemma map2_map {A B C D} (f : B -> C -> D) (g : A -> B) (h : A -> C) l : map2 f (map g l) (map h l) = map (fun x => f (g x) (h x)) l.
+Proof. induction l as [|x t IH]; simpl; congruence. Qed.
 
 Theorem stages_are_a_map l :
   fst (stages_before_conf OR db ban fuel (number 0 l)) = map F (number 0 l).
@@ -111,7 +115,10 @@ Proof.
   assert (I7 : ids_from 0 r7).
   { unfold r7. repeat (apply ids_from_map; [intros; first [apply rid_validate | apply rid_post_process | apply rid_mcs_impute | apply rid_mcs_find | apply rid_rb_row]|]).
     apply ids_from_number. }
-  rewrite (rule_based_is_map r7 I7). unfold r7, r1. rewrite !map_map. reflexivity.
+  rewrite (rule_based_is_map r7 I7). unfold r7, r1. rewrite !map_map.
+  change (map (fun x => validate M_MCS true false None (mcs_impute OR (mcs_find OR (validate M_RB false true None (rb_row (validate M_INPUT true false None x)))))) (number 0 l))
+    with (map G6 (number 0 l)).
+  rewrite (map2_map (restore OR) G6 (fun x => rb_row (post_process OR (G6 x)))), map_map. reflexivity.
 Qed.
 
 (* ---------------------------------------------------------------- rows do not see their id *)
@@ -151,11 +158,15 @@ Proof.
   unfold post_process. destruct r as [i x inp s byy iss ca mc ru co]; simpl. destruct byy as [m|]; auto.
   destruct (String.eqb m M_INPUT); auto. destruct (pp OR x); reflexivity.
 Qed.
-Theorem F_set_rid r j : F (set_rid r j) = set_rid (F r) j.
+Lemma G6_set_rid r j : G6 (set_rid r j) = set_rid (G6 r) j.
+Proof. unfold G6. now rewrite validate_set_rid, rb_row_set_rid, validate_set_rid, mcs_find_set_rid, mcs_impute_set_rid, validate_set_rid. Qed.
+Lemma restore_set_rid a b j : restore OR (set_rid a j) (set_rid b j) = set_rid (restore OR a b) j.
 Proof.
-  unfold F. now rewrite validate_set_rid, rb_row_set_rid, validate_set_rid, mcs_find_set_rid, mcs_impute_set_rid,
-    validate_set_rid, post_process_set_rid, rb_row_set_rid, validate_set_rid.
+  unfold restore, pp_fires. destruct a as [i x inp s byy iss ca mc ru co], b as [i' x' inp' s' byy' iss' ca' mc' ru' co']; simpl.
+  destruct (_ && _); reflexivity.
 Qed.
+Theorem F_set_rid r j : F (set_rid r j) = set_rid (F r) j.
+Proof. unfold F. now rewrite G6_set_rid, post_process_set_rid, rb_row_set_rid, restore_set_rid, validate_set_rid. Qed.
 Lemma conf_one_set_rid t tmsg r j :
   conf_one OR t tmsg (set_rid r j) =
   match conf_one OR t tmsg r with Done x => Done (set_rid x j) | Raised w => Raised w end.
